@@ -17,6 +17,13 @@
 //   exclusive start on the LAST unit of a block is the NEXT block; `RangeIter::begin` then never meets the start anchor, nothing is
 //   yielded and no item is marked as linked: the link dereferences correctly but never fires an event.
 //
+// FINDING Q3 (`Quotable::quote`, first walk; obligation quote_start_walk_q3::post; OPEN): the start anchor is taken from the item
+//   at which the index is used up (`if remaining == 0 { break; }`), even if that item is a tombstone standing in front of the
+//   element at the index: an exclusive start then INCLUDES the element it should exclude; an inclusive start lets a concurrent
+//   insert between the tombstone and the first element into the quotation; `quote(len..)` is Ok when a tombstone trails.
+// OBSERVATION Q4 (`SplittableString::block_offset`, OffsetKind::Bytes): an index inside a multi-byte character underflows
+//   `remaining -= c.len_utf8()` (block.rs:1629).
+//
 // AFTER units/quote_range/repair.diff (checked on a patched copy): every Q1 case dereferences to the empty sequence, the Q2 cases
 //   return Err(QuoteError::OutOfBounds), the controls and O3 are unchanged.
 //
@@ -26,7 +33,8 @@ use std::ops::{Bound, RangeBounds};
 use std::panic::{catch_unwind, AssertUnwindSafe};
 use std::sync::atomic::{AtomicU32, Ordering};
 use std::sync::Arc;
-use yrs::{Array, ArrayRef, Doc, Map, Observable, Quotable, Transact};
+use yrs::updates::decoder::Decode;
+use yrs::{Array, ArrayRef, Doc, Map, Observable, OffsetKind, Options, Quotable, ReadTxn, StateVector, Text, Transact, Update};
 
 fn one_block(doc: &Doc) -> ArrayRef {
     // one block 1#0..6 holding [0, 1, 2, 3, 4, 5]
@@ -90,6 +98,95 @@ fn events<R: RangeBounds<u32> + std::fmt::Debug + Clone>(range: R) {
     println!("{:<34} {:<32} unquote = {:?}, link events fired = {}   [expected 2]", "three blocks, 2 edits in range", format!("{:?}", range), got, n.load(Ordering::SeqCst));
 }
 
+fn unq<T: ReadTxn>(link: &yrs::WeakRef<ArrayRef>, txn: &T) -> Vec<String> {
+    link.unquote(txn).map(|v| v.to_string(txn)).collect()
+}
+
+fn q3() {
+    // an exclusive start whose element is directly preceded by a tombstone
+    {
+        let doc = Doc::with_client_id(1);
+        let a = doc.get_or_insert_array("array");
+        let map = doc.get_or_insert_map("map");
+        a.insert_range(&mut doc.transact_mut(), 0, ["a", "X", "b", "c"]);
+        a.remove(&mut doc.transact_mut(), 1); // a, b, c with the tombstone X between a and b
+        let mut txn = doc.transact_mut();
+        let p = a.quote(&txn, (Bound::Excluded(1u32), Bound::Included(2u32))).unwrap();
+        let link = map.insert(&mut txn, "k", p);
+        println!("Q3a [a,(X),b,c] (Excluded(1), Included(2))   unquote = {:?}   [expected c]", unq(&link, &txn));
+    }
+    {
+        let doc = Doc::with_client_id(1);
+        let a = doc.get_or_insert_array("array");
+        let map = doc.get_or_insert_map("map");
+        a.insert_range(&mut doc.transact_mut(), 0, ["X", "a", "b", "c"]);
+        a.remove(&mut doc.transact_mut(), 0);
+        let mut txn = doc.transact_mut();
+        let p = a.quote(&txn, (Bound::Excluded(0u32), Bound::Included(2u32))).unwrap();
+        let link = map.insert(&mut txn, "k", p);
+        println!("Q3b [(X),a,b,c] (Excluded(0), Included(2))   unquote = {:?}   [expected b,c]", unq(&link, &txn));
+    }
+    // an inclusive start anchored on the tombstone: a concurrent insert between the tombstone and the first element gets inside
+    for with_tombstone in [true, false] {
+        let d1 = Doc::with_client_id(1);
+        let a1 = d1.get_or_insert_array("array");
+        let m1 = d1.get_or_insert_map("map");
+        if with_tombstone {
+            a1.insert_range(&mut d1.transact_mut(), 0, ["a", "X", "b", "c"]);
+        } else {
+            a1.insert_range(&mut d1.transact_mut(), 0, ["a", "b", "c"]);
+        }
+        let d2 = Doc::with_client_id(2);
+        let a2 = d2.get_or_insert_array("array");
+        let u = d1.transact().encode_state_as_update_v1(&StateVector::default());
+        d2.transact_mut().apply_update(Update::decode_v1(&u).unwrap()).unwrap();
+        // replica 2 inserts Y directly in front of b (behind X)
+        a2.insert(&mut d2.transact_mut(), if with_tombstone { 2 } else { 1 }, "Y");
+        // replica 1 removes X and quotes b, c
+        if with_tombstone {
+            a1.remove(&mut d1.transact_mut(), 1);
+        }
+        let link = {
+            let mut txn = d1.transact_mut();
+            let p = a1.quote(&txn, 1..=2).unwrap();
+            m1.insert(&mut txn, "k", p)
+        };
+        let u2 = d2.transact().encode_state_as_update_v1(&d1.transact().state_vector());
+        d1.transact_mut().apply_update(Update::decode_v1(&u2).unwrap()).unwrap();
+        let t = d1.transact();
+        println!("Q3c {} array = {:?}, quote 1..=2 (= b,c when quoted) = {:?}   [expected b,c]", if with_tombstone { "tombstone in front of b:" } else { "control, no tombstone:  " },
+            a1.iter(&t).map(|v| v.to_string(&t)).collect::<Vec<_>>(), unq(&link, &t));
+    }
+    // start index == len()
+    for trailing in [true, false] {
+        let doc = Doc::with_client_id(1);
+        let a = doc.get_or_insert_array("array");
+        if trailing {
+            a.insert_range(&mut doc.transact_mut(), 0, ["a", "b", "X"]);
+            a.remove(&mut doc.transact_mut(), 2);
+        } else {
+            a.insert_range(&mut doc.transact_mut(), 0, ["a", "b"]);
+        }
+        let txn = doc.transact();
+        println!("Q3d {} quote(2..) = {:?}   [expected Err: index 2 == len]", if trailing { "[a,b,(X)]" } else { "[a,b]    " }, a.quote(&txn, 2..).map(|p| p.unquote(&txn).map(|v| v.to_string(&txn)).collect::<Vec<_>>()).map_err(|e| e.to_string()));
+    }
+}
+
+fn q4() {
+    let mut o = Options::default();
+    o.offset_kind = OffsetKind::Bytes;
+    let doc = Doc::with_options(o);
+    let text = doc.get_or_insert_text("text");
+    text.insert(&mut doc.transact_mut(), 0, "a\u{e9}b"); // bytes: a (1), e-acute (2), b (1): len 4; index 2 is inside the character
+    for r in [(1u32, 1u32), (1, 2), (2, 3), (3, 3)] {
+        let res = catch_unwind(AssertUnwindSafe(|| {
+            let txn = doc.transact();
+            text.quote(&txn, r.0..=r.1).map(|p| format!("{:?}", p.source())).map_err(|e| e.to_string())
+        }));
+        println!("Q4 Bytes text a-e_acute-b (len {}) quote {}..={} : {:?}", text.len(&doc.transact()), r.0, r.1, res.unwrap_or(Ok("PANIC".into())));
+    }
+}
+
 fn main() {
     std::panic::set_hook(Box::new(|i| println!("    panic: {}", i)));
     println!("== controls (correct)");
@@ -108,6 +205,10 @@ fn main() {
     println!("== OBSERVATION O3: materialize with an exclusive start on the last unit of a block");
     events(2..=4);
     events((Bound::Excluded(1u32), Bound::Included(4u32)));
+    println!("== FINDING Q3: the start anchor is a tombstone in front of the element at the index");
+    q3();
+    println!("== OBSERVATION Q4: Bytes documents, index inside a multi-byte character");
+    q4();
     println!("== FINDING Q2: inverted range in Quotable::quote");
     case("Q2 one block", one_block, 3..=2, "empty or QuoteError");
     case("Q2 one block", one_block, 3..1, "empty or QuoteError");
